@@ -54,6 +54,11 @@ const (
 	datacap   = 1_700_000
 	priceBump = 100
 	maxPerAcc = 16
+
+	// race variant: bound on the Close+reopen operations per history (each is a billy Close/Open of
+	// both stores plus two physical walks under race instrumentation: measured ~1 s against ~35 s
+	// for the rest of a 25-op history; the bound only caps the worst case)
+	raceReopensPerHist = 2
 )
 
 var (
@@ -238,6 +243,7 @@ type hist struct {
 	lastAddSize      uint64      // its expected slot size (0 = unknown)
 
 	fEvict, fReplace, fLimbo, fReinject, fReopen, fGapped, fFinal, fTipDrop, fReorg, fOverdraft bool
+	reopens                                                                                     int // Close+reopen operations started in this history
 
 	// eviction-focused family (evict.go): mostly Adds - appends with fee caps around the current
 	// fees and replacements in multi-tx accounts - over a pool that is full most of the time
@@ -939,9 +945,12 @@ func (h *hist) runWorkload(nOps, stopAfter int) {
 				h.begin(fmt.Sprintf("pending-auth %s = %v", h.addrName(a), v))
 				h.end(nil)
 			default:
-				// (not under the race detector: billy.Open allocates and compacts every shelf,
-				// which is pathologically slow with race instrumentation)
-				if stopAfter < 0 && !r.Race() {
+				// (under the race detector at most raceReopensPerHist per history: billy.Open
+				// allocates and compacts every shelf, which is pathologically slow with race
+				// instrumentation; the concurrent reader is held off by poolMu while the pool
+				// object is closed and replaced)
+				if stopAfter < 0 && (!r.Race() || h.reopens < raceReopensPerHist) {
+					h.reopens++
 					h.opReopen()
 				}
 			}
